@@ -446,3 +446,39 @@ pub fn run_hugecap(out: &mut RunOut) {
 }
 
 pub fn _unused(_: &Viol) {}
+
+// ------------------------------------------------------------------------------ C14: clone when the allocator refuses
+
+/// One process per case: the k-th allocation made inside `clone()` / `clone_from()` is refused. The crate's clone is
+/// infallible, so the expected outcome is that the process aborts (handle_alloc_error) - the driver accepts exactly that.
+/// If clone *returns*, what it returns must still be a clone as C14 describes it (in particular: at least the source's capacity).
+pub fn run_clone_refusal(case: u64, out: &mut RunOut) {
+    let n = [0usize, 1, 5, 40, 300][(case % 5) as usize];
+    let cap0 = [None, Some(n), Some(4096), Some(60_000)][((case / 5) % 4) as usize];
+    let use_clone_from = (case / 20) % 2 == 1;
+    let k = 1 + (case / 40) % 3;
+    let hk = TH_KINDS[(case % TH_KINDS.len() as u64) as usize];
+    let cfg = HistCfg { hk, cap0, max: usize::MAX >> 1, universe: n as u32, events: 0, extreme: false };
+    ledger_reset(); ledger_strict(false);
+    let mut c: Cache<TH> = TH::make(cfg.max, cfg.cap0, hk);
+    for id in 0..n as u32 { let _ = c.insert(TKey::new(id, (id % 4) as usize), TVal::new((id % 9) as usize)); }
+    if n >= 5 { c.remove(&KeyId(1)); c.touch(&KeyId(0)); }
+    let before = observe(&c, &ObsOpts { universe: 0, owned_form: false, traversals: false, limit: c.len() + 8 });
+    let mut target: Cache<TH> = TH::make(1000, Some(3), hk);
+    let _ = target.insert(TKey::new(7, 0), TVal::new(0));
+    { use std::io::Write; println!("CASE clone_refusal armed: {} of a cache with {} entries, capacity {}, refusing allocation #{}", if use_clone_from { "clone_from" } else { "clone" }, c.len(), c.capacity(), k); let _ = std::io::stdout().flush(); }
+    crate::valloc::fail_nth(k);
+    let d: Cache<TH> = if use_clone_from { target.clone_from(&c); target } else { drop(target); c.clone() };
+    let refused = crate::valloc::fail_off();
+    out.stats.events += 1;
+    out.stats.eval("C14", mix(&[1414, case]));
+    out.stats.count(if refused > 0 { "c14_clone_returned_although_an_allocation_was_refused" } else { "c14_clone_refusal_not_reached" });
+    let after = observe(&c, &ObsOpts { universe: 0, owned_form: false, traversals: false, limit: c.len() + 8 });
+    let od = observe(&d, &ObsOpts { universe: n as u32 + 1, owned_form: false, traversals: true, limit: d.len() + 8 });
+    let what = format!("{} with allocation #{} refused ({} refusals happened)", if use_clone_from { "clone_from" } else { "clone" }, k, refused);
+    if d.capacity() < c.capacity() { fail(out, "C14", "clone-capacity", format!("{}: the clone's capacity is {}, the source's {}", what, d.capacity(), c.capacity()), &cfg, "clone_refusal".into()); }
+    if od.ids() != before.ids() || od.cur != before.cur || od.max != before.max || !od.g1.is_empty() || !od.g2.is_empty() || !od.g3.is_empty() { fail(out, "C14", "clone-equal", format!("{}: the clone holds {:?} (current_size {}), the source {:?} ({}); structure notes {:?}", what, od.ids(), od.cur, before.ids(), before.cur, od.g1), &cfg, "clone_refusal".into()); }
+    if after.fingerprint != before.fingerprint { fail(out, "C14", "source-changed", format!("{}: the source changed", what), &cfg, "clone_refusal".into()); }
+    drop(d); drop(c);
+    ledger_reset();
+}
